@@ -9,6 +9,7 @@ import Driver.C04
 import Driver.C05
 import Driver.C02
 import Driver.C15
+import Driver.C07
 open Lean CKT CKT.Driver
 
 def dispatch (j : Json) : Except String Json := do
@@ -24,6 +25,7 @@ def dispatch (j : Json) : Except String Json := do
   else if op.startsWith "c05." then c05 op j
   else if op.startsWith "c02." then c02 op j
   else if op.startsWith "c15." then c15 op j
+  else if op.startsWith "c07." then c07 op j
   else throw s!"unknown op {op}"
 
 def handle (line : String) : String :=
